@@ -154,6 +154,18 @@ func NewSessionCache() *SessionCache {
 func (c *SessionCache) Store(entry *SessionEntry) {
 	c.mu.Lock()
 	defer c.mu.Unlock()
+	// A different entry taking over this id (a session registered again, e.g. a
+	// claim re-imported under another tag, address or command set) must not
+	// inherit the command mappings of the entry it replaces: they would route
+	// the old {tag,addr,<cmd>} lookups to the new session. Storing the same
+	// entry again (lease renewal on resumption) keeps its mappings.
+	if old := c.sessions[entry.id]; old != entry {
+		for key, sessID := range c.commandMap {
+			if sessID == entry.id {
+				delete(c.commandMap, key)
+			}
+		}
+	}
 	c.sessions[entry.id] = entry
 }
 
